@@ -65,22 +65,29 @@ class HookDict(dict):
     def __setitem__(self, pid, w):
         new = pid not in self
         if new:
-            self.k.cur_op = ("assign", pid)
+            self.k.cur_op = ("assign", self.k.inn(pid))
             self.k.inject("assign.pre")
         super().__setitem__(pid, w)
         if new:
-            self.k.point("assign", pid, getattr(w, "age", 0))
+            self.k.point("assign", self.k.inn(pid), getattr(w, "age", 0))
 
     def pop(self, pid, *default):
         had = pid in self
         r = super().pop(pid, *default)
         if had:
-            self.k.point("untrack", pid)
+            self.k.point("untrack", self.k.inn(pid))
         return r
 
     def __delitem__(self, pid):
         super().__delitem__(pid)
-        self.k.point("untrack", pid)
+        self.k.point("untrack", self.k.inn(pid))
+
+    def ids(self):
+        """tracked workers as kernel-internal ids (fork ordinals)"""
+        return sorted(self.k.inn(p) for p in self.keys())
+
+    def aborted_ids(self):
+        return set(self.k.inn(p) for p, w in self.items() if w.aborted)
 
 
 class FakeListener:
@@ -239,6 +246,25 @@ class SimKernel:
                 raise EndOfRun("deadline")
 
     # ---------------------------------------------------------------- patched calls
+    # The arbiter may see pids in another order than the order of creation (pid wrap-around / reuse in the
+    # real kernel): ext() maps the kernel-internal id (fork ordinal, used in every trace event) to the number
+    # handed to the arbiter, inn() back.  pid_style: "asc" (identity), "desc", "wrap".
+    pid_style = "asc"
+
+    def ext(self, o):
+        if self.pid_style == "desc":
+            return 5000 - o
+        if self.pid_style == "wrap":
+            return 32765 + o if o <= 2 else 100 + o
+        return o
+
+    def inn(self, pid):
+        if self.pid_style == "desc":
+            return 5000 - pid if 0 < 5000 - pid < 4000 else pid
+        if self.pid_style == "wrap":
+            return pid - 32765 if pid > 32765 else (pid - 100 if 100 < pid < 4000 else pid)
+        return pid
+
     def fork(self):
         self.cur_op = ("fork", self.next_pid)
         self.inject("fork.pre")
@@ -247,10 +273,12 @@ class SimKernel:
         w = self.last_worker
         self.procs[pid] = Proc(pid, w.tmp if w is not None else None, self.ticks)
         self.point("fork", pid)
-        return pid
+        return self.ext(pid)
 
     def kill(self, pid, sig):
         sig = int(sig)
+        if pid not in (MASTER_PID, PARENT_PID):
+            pid = self.inn(pid)
         if sig == 0:                                   # Pidfile.validate probing
             if pid == MASTER_PID or (pid in self.procs and self.procs[pid].st != "reaped"):
                 return
@@ -287,7 +315,7 @@ class SimKernel:
         p = self.procs[z]
         p.st = "reaped"
         self.point("wait", z, p.status)
-        return z, p.status
+        return self.ext(z), p.status
 
     def select(self, r, w, x, timeout=None):
         self.emit("select")
